@@ -620,7 +620,11 @@ example : typedIterNew (.cols [.scalar .i32, .scalar .str]) [.native .int, .nati
 pages' column specs are (all different, changing back and forth, with zero-sized pages in between), for every
 row type (`check` is its `type_check`).  And a type-check error is only ever reported for a page that does not
 fit.  (The flag `current_page_typechecked` is reset by every freshly fetched page; were it reset only for SOME
-fresh pages, rows of an unchecked page would be deserialized — reinterpreted — with the previous page's verdict.) -/
+fresh pages, rows of an unchecked page would be deserialized — reinterpreted — with the previous page's verdict.)
+The items are those of a consumer that keeps polling THROUGH error items to the end of the stream: after a refused
+row the flag stays unset, so every remaining row of that page is checked — and refused — again (were the flag set
+before the check succeeds, the rows after the first refused one would be deserialized unchecked); later pages that
+fit are delivered again. -/
 theorem stream_rows_checked (check : List (String × CqlTy) → Bool) (pages : List PageM) (outs : List StreamOut)
     (h : typedStream check pages = some outs) :
     (∀ i, StreamOut.row i ∈ outs → ∃ p, pages[i]? = some p ∧ check p.specs = true) ∧
@@ -634,6 +638,22 @@ theorem stream_rows_checked (check : List (String × CqlTy) → Bool) (pages : L
     rcases hok with ⟨he, _⟩ | ⟨he, hc⟩
     · cases he
     · cases he; exact ⟨p, hp, hc⟩
+
+/-- The same for a consumer that stops at the first error item (it sees a prefix of those items). -/
+theorem stream_rows_checked_until_error (check : List (String × CqlTy) → Bool) (pages : List PageM)
+    (outs : List StreamOut) (h : typedStream check pages = some outs) (i : Nat)
+    (hi : StreamOut.row i ∈ untilFirstError outs) : ∃ p, pages[i]? = some p ∧ check p.specs = true :=
+  (stream_rows_checked check pages outs h).1 i (ScyllaVerif.Proofs.PagerStream.untilFirstError_mem _ _ hi)
+
+/-- A page that does not fit yields NO row, however many rows it has and however long the consumer keeps polling:
+each of its rows is an error item. -/
+theorem nonfitting_page_yields_no_row (check : List (String × CqlTy) → Bool) (pages : List PageM)
+    (outs : List StreamOut) (h : typedStream check pages = some outs) (i : Nat) (p : PageM)
+    (hp : pages[i]? = some p) (hbad : check p.specs = false) : StreamOut.row i ∉ outs := by
+  intro hi
+  obtain ⟨q, hq, hc⟩ := (stream_rows_checked check pages outs h).1 i hi
+  rw [hp] at hq; cases hq
+  rw [hbad] at hc; cases hc
 
 /-- The constructor refuses a first page that does not fit: no stream, no row. -/
 theorem stream_ctor_refuses (check : List (String × CqlTy) → Bool) (p : PageM) (ps : List PageM)
@@ -656,12 +676,14 @@ theorem stream_row_never_panics (cs : List Carrier) (pages : List PageM) (outs :
   simp [rowDecodePanics, hl, ScyllaVerif.Proofs.CarrierTc.acceptedZip_no_panic cs _ hz]
 
 /-- Non-vacuity, the shape of the missed seeded change: page 0 `[pk int, v bigint]`, page 1 `[pk int, v double]`
-under a stream typed `(i32, i64)`: the two rows of page 0, then a type-check error — never a row of page 1. -/
+under a stream typed `(i32, i64)`: the two rows of page 0, then one type-check error PER ROW of the non-fitting
+page (never one of its rows, also not after the first error), then the row of the fitting page that follows. -/
 example :
     let check := fun (specs : List (String × CqlTy)) =>
       (tcheckRow (.cols [.scalar .i32, .scalar .i64]) (specs.map (·.2))).isNone
     typedStream check [⟨[("pk", .native .int), ("v", .native .bigint)], 2⟩, ⟨[], 0⟩,
-      ⟨[("pk", .native .int), ("v", .native .double)], 3⟩] = some [.row 0, .row 0, .typeErr 2] := by
+      ⟨[("pk", .native .int), ("v", .native .double)], 3⟩, ⟨[("pk", .native .int), ("v", .native .bigint)], 1⟩]
+      = some [.row 0, .row 0, .typeErr 2, .typeErr 2, .typeErr 2, .row 3] := by
   decide
 
 /-- On read, sets are not lists and tuples need the exact arity; on write they do not (non-vacuity of the
@@ -794,6 +816,134 @@ theorem bind_positional_mismatch_rejected (vs : List RVal) (cols : List Col) (p 
   | ok sv =>
     have := (bind_positional_ok vs cols sv h).2.1 p hp
     rw [hm] at this; cases this
+
+/-- The column loop stops at the FIRST value that does not fit, and names that column (unless an earlier, fitting
+value was too big). -/
+private theorem bindCells_first_misfit : ∀ (pre : List (Col × RVal)) (p : Col × RVal) (post : List (Col × RVal)) (w : RW),
+    (∀ q, q ∈ pre → fits q.1.ty q.2 = true) → fits p.1.ty p.2 = false →
+    ∃ w' n e, bindCells (pre ++ p :: post) w = (w', some (.column n e)) ∧
+      (n = p.1.name ∨ (e.kind.isSize = true ∧ ∃ q, q ∈ pre ∧ n = q.1.name))
+  | [], p, post, w, _, hp => by
+    obtain ⟨e, he⟩ := ser_rejects p.1.ty p.2 true w.buf hp
+    obtain ⟨c, v⟩ := p
+    simp only [List.nil_append, bindCells, RW.makeCell]
+    cases hr : ser c.ty v true w.buf with
+    | mk b oe =>
+      rw [hr] at he
+      simp only at he
+      subst he
+      exact ⟨_, c.name, e, rfl, .inl rfl⟩
+  | q :: pre, p, post, w, hpre, hp => by
+    obtain ⟨c, v⟩ := q
+    simp only [List.cons_append, bindCells, RW.makeCell]
+    have hq : fits c.ty v = true := hpre (c, v) (by simp)
+    cases hr : ser c.ty v true w.buf with
+    | mk b oe =>
+      cases oe with
+      | some e =>
+        have hsz : e.kind.isSize = true := by
+          rcases ser_fits_ok_or_size c.ty v true w.buf hq with h | ⟨e', he', hk⟩
+          · rw [hr] at h; cases h
+          · rw [hr] at he'; cases he'; exact hk
+        exact ⟨_, c.name, e, rfl, .inr ⟨hsz, (c, v), by simp, rfl⟩⟩
+      | none =>
+        obtain ⟨w', n, e, hb, hn⟩ := bindCells_first_misfit pre p post ⟨b, w.count + 1⟩
+          (fun q hq => hpre q (by simp [hq])) hp
+        refine ⟨w', n, e, hb, ?_⟩
+        rcases hn with h | ⟨hs, q, hq, hqn⟩
+        · exact .inl h
+        · exact .inr ⟨hs, q, by simp [hq], hqn⟩
+
+/-- **The refusal names the first misfitting column**: a positional bind whose values fit up to some column and
+whose value for that column does not fit fails with `ColumnSerializationFailed` for THAT column (or, if an earlier
+fitting value exceeded the size limits, with that earlier column's size error). -/
+theorem bind_positional_first_misfit (vs : List RVal) (cols : List Col) (pre post : List (Col × RVal)) (p : Col × RVal)
+    (hl : cols.length = vs.length) (hz : cols.zip vs = pre ++ p :: post)
+    (hpre : ∀ q, q ∈ pre → fits q.1.ty q.2 = true) (hp : fits p.1.ty p.2 = false) :
+    ∃ n e, fromSerializable (.seq vs) cols = .error (.column n e) ∧
+      (n = p.1.name ∨ (e.kind.isSize = true ∧ ∃ q, q ∈ pre ∧ n = q.1.name)) := by
+  obtain ⟨w', n, e, hb, hn⟩ := bindCells_first_misfit pre p post RW.new hpre hp
+  refine ⟨n, e, ?_, hn⟩
+  have hne : ¬ cols.length ≠ vs.length := by omega
+  simp [fromSerializable, serializeRow, hne, hz, hb]
+
+private theorem bindByName_first_missing (m : List (String × RVal)) : ∀ (pre : List Col) (c : Col) (post : List Col) (w : RW),
+    (∀ q, q ∈ pre → ∃ v, lookupName q.name m = some v ∧ fits q.ty v = true) → lookupName c.name m = none →
+    ∃ w' err, bindByName m (pre ++ c :: post) w = (w', some err) ∧
+      (err = .valueMissingForColumn c.name ∨ ∃ n e, err = .column n e ∧ e.kind.isSize = true ∧ ∃ q, q ∈ pre ∧ n = q.name)
+  | [], c, post, w, _, hc => by
+    simp only [List.nil_append, bindByName, hc]
+    exact ⟨w, _, rfl, .inl rfl⟩
+  | q :: pre, c, post, w, hpre, hc => by
+    obtain ⟨v, hv, hfit⟩ := hpre q (by simp)
+    simp only [List.cons_append, bindByName, hv, RW.makeCell]
+    cases hr : ser q.ty v true w.buf with
+    | mk b oe =>
+      cases oe with
+      | some e =>
+        have hsz : e.kind.isSize = true := by
+          rcases ser_fits_ok_or_size q.ty v true w.buf hfit with h | ⟨e', he', hk⟩
+          · rw [hr] at h; cases h
+          · rw [hr] at he'; cases he'; exact hk
+        exact ⟨_, _, rfl, .inr ⟨q.name, e, rfl, hsz, q, by simp, rfl⟩⟩
+      | none =>
+        obtain ⟨w', err, hb, hn⟩ := bindByName_first_missing m pre c post ⟨b, w.count + 1⟩
+          (fun q hq => hpre q (by simp [hq])) hc
+        refine ⟨w', err, hb, ?_⟩
+        rcases hn with h | ⟨n, e, he, hs, q', hq', hqn⟩
+        · exact .inl h
+        · exact .inr ⟨n, e, he, hs, q', by simp [hq'], hqn⟩
+
+/-- **The refusal names the first bind marker without a value** (markers in their order; earlier markers found
+fitting values): `ValueMissingForColumn` for that marker, or an earlier column's size error. -/
+theorem bind_byname_first_missing (m : List (String × RVal)) (pre post : List Col) (c : Col)
+    (hpre : ∀ q, q ∈ pre → ∃ v, lookupName q.name m = some v ∧ fits q.ty v = true)
+    (hc : lookupName c.name m = none) :
+    fromSerializable (.byName m) (pre ++ c :: post) = .error (.valueMissingForColumn c.name) ∨
+    ∃ n e, fromSerializable (.byName m) (pre ++ c :: post) = .error (.column n e) ∧ e.kind.isSize = true ∧
+      ∃ q, q ∈ pre ∧ n = q.name := by
+  obtain ⟨w', err, hb, hn⟩ := bindByName_first_missing m pre c post RW.new hpre hc
+  rcases hn with h | ⟨n, e, he, hs, hq⟩
+  · left; subst h; simp [fromSerializable, serializeRow, hb]
+  · right; subst he; exact ⟨n, e, by simp [fromSerializable, serializeRow, hb], hs, hq⟩
+
+private theorem bindByName_all_fit (m : List (String × RVal)) : ∀ (cols : List Col) (w : RW),
+    (∀ q, q ∈ cols → ∃ v, lookupName q.name m = some v ∧ fits q.ty v = true) →
+    (bindByName m cols w).2 = none ∨ ∃ n e, (bindByName m cols w).2 = some (.column n e) ∧ e.kind.isSize = true
+  | [], w, _ => by simp [bindByName]
+  | q :: rest, w, h => by
+    obtain ⟨v, hv, hfit⟩ := h q (by simp)
+    simp only [bindByName, hv, RW.makeCell]
+    cases hr : ser q.ty v true w.buf with
+    | mk b oe =>
+      cases oe with
+      | some e =>
+        have hsz : e.kind.isSize = true := by
+          rcases ser_fits_ok_or_size q.ty v true w.buf hfit with h' | ⟨e', he', hk⟩
+          · rw [hr] at h'; cases h'
+          · rw [hr] at he'; cases he'; exact hk
+        exact .inr ⟨q.name, e, rfl, hsz⟩
+      | none => exact bindByName_all_fit m rest _ (fun q hq => h q (by simp [hq]))
+
+/-- **The refusal names the smallest key that no bind marker uses**: when every marker found a fitting value but
+the map has keys that name no marker, the bind fails with `NoColumnWithName` for the lexicographically smallest
+such key (or with a column's size error) — never succeeds. -/
+theorem bind_byname_unknown_names_min (m : List (String × RVal)) (cols : List Col) (k : String)
+    (hall : ∀ q, q ∈ cols → ∃ v, lookupName q.name m = some v ∧ fits q.ty v = true)
+    (hk : minName ((m.map (·.1)).filter (fun k => !(cols.any (fun c => c.name == k)))) = some k) :
+    fromSerializable (.byName m) cols = .error (.noColumnWithName k) ∨
+    ∃ n e, fromSerializable (.byName m) cols = .error (.column n e) ∧ e.kind.isSize = true := by
+  rcases bindByName_all_fit m cols RW.new hall with h | ⟨n, e, he, hs⟩
+  · left
+    cases hb : bindByName m cols RW.new with
+    | mk w oe =>
+      rw [hb] at h; simp only at h; subst h
+      simp [fromSerializable, serializeRow, hb, hk]
+  · right
+    cases hb : bindByName m cols RW.new with
+    | mk w oe =>
+      rw [hb] at he; simp only at he; subst he
+      exact ⟨n, e, by simp [fromSerializable, serializeRow, hb], hs⟩
 
 /-- **A by-name bind that succeeds**: every bind marker found a value of its name, every such value fits, the count
 is the number of bind markers = the number of cells; and (`bind_byname_unknown_rejected`) no key is left over. -/
